@@ -85,6 +85,8 @@ def strategy(tier):
         # specificity scenario: a twin of the first offer registered for a protocol the source provides only by ABC
         # registration, or for a subclass of the source (which then is the adaptee's class)
         "twin": st.sampled_from([None, None, "registered", "subclass", "registered-first", "subclass-first"]),
+        # ABC registrations that happen only AFTER a first adaptation attempt (results must not be remembered across them)
+        "late_regs": st.lists(st.tuples(I5, I5).map(list), max_size=2),
     })
 
 
@@ -132,6 +134,23 @@ def run(case, ctx):
             return Wrap(adaptee, oid)
         mgr.register_factory(factory, F, Tt)
         offs.append((F, Tt, cond))
+    if case.get("late_regs"):
+        # first attempt with the early registrations only (its outcome is not judged, it only warms whatever is cached)
+        S0 = classes[(case["paths"][0][0] if case["paths"] else case["src"]) % n]
+        T0 = classes[(case["paths"][0][-1] if case["paths"] else case["tgt"]) % n]
+        try:
+            mgr.adapt(S0(), T0, None)
+            mgr.supports_protocol(S0(), T0)
+        except TypeError:
+            pass
+        for (a, b) in case["late_regs"]:
+            A, B = classes[a % n], classes[b % n]
+            if isinstance(A, abc.ABCMeta) and A is not B and not issubclass(A, B):
+                try:
+                    A.register(B)
+                    ctx.label("late-registration")
+                except (RuntimeError, TypeError):
+                    pass
     if case["start_at_path"] and case["paths"]:
         S = classes[case["paths"][0][0] % n]
         T = classes[case["paths"][0][-1] % n]
